@@ -16,6 +16,7 @@ pub mod c12;
 pub mod c13;
 pub mod c14;
 pub mod c15;
+pub mod c16;
 
 pub fn run(prop: &str, opts: &Opts) -> bool {
     match prop {
@@ -35,6 +36,8 @@ pub fn run(prop: &str, opts: &Opts) -> bool {
         "c13" => c13::run(opts),
         "c14" => c14::run(opts),
         "c15" => c15::run(opts),
+        "c16" => c16::run(opts),
+        "c16check" => c16::check_logs(opts),
         _ => return false,
     }
     true
